@@ -123,6 +123,106 @@ fn c12_step_1x3_t0() {
     step(1, 3, 0);
 }
 
+/// Hits must not disturb the other resident entry: insert a, insert b, then two
+/// lookups q1, q2 each equal to a or b (so nothing is ever evicted from the two
+/// columns). Every lookup after the inserts is a hit with the right address -
+/// in particular b is still resident after a hit on a promoted a out of the
+/// older column, and vice versa.
+fn hits_keep_residents(cols: usize, t: usize) {
+    let mut r = v::Registry::new(1, cols);
+    let a = any_n1();
+    let b = any_n1();
+    let (aa, ab): (usize, usize) = (kani::any(), kani::any());
+    kani::assume(aa >= 16 && ab >= 16 && aa != ab);
+    kani::assume(!same_t(&a, &b, t));
+    let ra = lookup_or_insert(&mut r, &a, t, aa);
+    assert!(ra.is_none(), "found in an empty registry");
+    let rb = lookup_or_insert(&mut r, &b, t, ab);
+    assert!(rb.is_none(), "Found for a node that was never inserted");
+    let pick1: bool = kani::any();
+    let pick2: bool = kani::any();
+    let (q1, e1) = if pick1 { (a, aa) } else { (b, ab) };
+    let (q2, e2) = if pick2 { (a, aa) } else { (b, ab) };
+    let r1 = lookup_or_insert(&mut r, &q1, t, 97);
+    assert!(r1 == Some(e1), "resident node not found (first lookup)");
+    let r2 = lookup_or_insert(&mut r, &q2, t, 98);
+    assert!(r2 == Some(e2), "a hit displaced the other resident node although nothing had to be evicted");
+    let r3 = lookup_or_insert(&mut r, &q1, t, 99);
+    assert!(r3 == Some(e1), "resident node lost after two hits");
+    kani::cover!(pick1 && !pick2, "hit on the older column, then the other");
+    core::mem::forget(r);
+}
+
+#[kani::proof]
+#[kani::unwind(4)]
+fn c12_hits_1x2_t0() {
+    hits_keep_residents(2, 0);
+}
+
+#[kani::proof]
+#[kani::unwind(5)]
+fn c12_hits_1x3_t0() {
+    hits_keep_residents(3, 0);
+}
+
+/// Multi-row tables: the bucket is chosen by `Registry::hash`, which the 1xN
+/// harnesses never exercise. An equal node built independently (separate
+/// allocation, different capacity) must land in the same row and be found; a
+/// different node must never be reported as found. `rows` is concrete.
+fn bn_cap(n: &N1, t: usize, cap: usize) -> v::BuilderNode {
+    let mut trans = Vec::with_capacity(cap);
+    if t == 1 {
+        trans.push(Transition { inp: n.inp, out: Output::new(n.out), addr: n.addr });
+    }
+    v::BuilderNode { is_final: n.is_final, final_output: Output::new(n.fo), trans }
+}
+
+fn hash_step(rows: usize, cols: usize, t: usize) {
+    let mut r = v::Registry::new(rows, cols);
+    let a = any_n1();
+    let q = any_n1();
+    let aa: usize = kani::any();
+    kani::assume(aa >= 16);
+    let ra = lookup_or_insert(&mut r, &a, t, aa);
+    assert!(ra.is_none(), "found in an empty registry");
+    let node = bn_cap(&q, t, 3);
+    let rq = match r.entry(&node) {
+        v::RegistryEntry::Found(x) => Some(x),
+        v::RegistryEntry::NotFound(_) => None,
+        v::RegistryEntry::Rejected => {
+            assert!(false, "Rejected from a non-empty table");
+            None
+        }
+    };
+    core::mem::forget(node);
+    if same_t(&a, &q, t) {
+        assert!(rq == Some(aa), "an equal node is hashed to another row: not shared although nothing was evicted");
+    } else {
+        assert!(rq.is_none(), "Found for a node that was never inserted");
+    }
+    kani::cover!(rq.is_some(), "query hit");
+    kani::cover!(rq.is_none(), "query miss");
+    core::mem::forget(r);
+}
+
+#[kani::proof]
+#[kani::unwind(5)]
+fn c12_hash_3x1_t1() {
+    hash_step(3, 1, 1);
+}
+
+#[kani::proof]
+#[kani::unwind(5)]
+fn c12_hash_3x1_t0() {
+    hash_step(3, 1, 0);
+}
+
+#[kani::proof]
+#[kani::unwind(5)]
+fn c12_hash_2x2_t1() {
+    hash_step(2, 2, 1);
+}
+
 /// The empty table rejects; the empty final node is never looked up (the
 /// builder maps it to address 0 before consulting the registry) - here only
 /// the Rejected contract.
